@@ -1277,7 +1277,8 @@ impl Server {
         let mut query = String::from("");
 
         for (key, value) in parameter_diff {
-            query.push_str(&format!("SET {} TO '{}';", key, value));
+            // The value comes from the client: quote it as a string literal.
+            query.push_str(&format!("SET {} TO '{}';", key, value.replace('\'', "''")));
         }
 
         let res = self.query(&query).await;
